@@ -169,6 +169,41 @@ func mutate(p *prober, c *cfgs.Cfg, ct, ad, ctOther []byte) {
 }
 
 // arbitrary probes strings that were never produced by Encrypt.
+// inPlace: the caller's receive buffer first holds the genuine ciphertext (accepted) and then — the SAME slices,
+// rewritten in place — a forgery. A primitive that remembers something about the last accepted ciphertext keyed on the
+// caller's slice (instead of a copy) answers the forgery from the genuine one.
+func inPlace(p *prober, ct, ad []byte) {
+	buf, adBuf := bytes.Clone(ct), bytes.Clone(ad)
+	step := 1
+	if len(buf) > 96 {
+		step = len(buf) / 48
+	}
+	for pos := 0; pos < len(buf); pos += step {
+		if _, err := p.a.Decrypt(buf, adBuf); err != nil {
+			p.fails++
+			p.x.Fail("baseline", "%s: the unmodified ciphertext does not decrypt from a reused buffer: %v", p.cfg, err)
+			return
+		}
+		buf[pos] ^= 0x01
+		pos := pos
+		p.rej("accept-inplace-forgery", buf, adBuf, func() string {
+			return fmt.Sprintf("the receive buffer of the ciphertext accepted just before, byte %d flipped in place", pos)
+		})
+		buf[pos] ^= 0x01
+	}
+	for pos := 0; pos < len(adBuf); pos++ {
+		if _, err := p.a.Decrypt(buf, adBuf); err != nil {
+			return
+		}
+		adBuf[pos] ^= 0x01
+		pos := pos
+		p.rej("accept-inplace-forgery", buf, adBuf, func() string {
+			return fmt.Sprintf("the AD buffer of the call accepted just before, byte %d flipped in place", pos)
+		})
+		adBuf[pos] ^= 0x01
+	}
+}
+
 func arbitrary(p *prober, c *cfgs.Cfg, allShort bool) {
 	prefix := c.Prefix()
 	maxLen := c.MinLen() + 2
@@ -260,6 +295,10 @@ func kindSection(kind cfgs.Kind) func(x *h.X) {
 				x.Eval(1)
 				p := &prober{x: x, a: a, cfg: cfg, ct: ct, ad: ad}
 				mutate(p, c, ct, ad, ctO)
+				if p.fails > 0 {
+					return
+				}
+				inPlace(p, ct, ad)
 				if p.fails > 0 {
 					return
 				}
